@@ -7,10 +7,10 @@ VARIABLE hist
 GenInit == Init /\ hist = <<>>
 (* the extended alphabet is explored by random walks (-simulate); fewer cut positions there so   *)
 (* that the walks are not dominated by the variants of TO2                                      *)
-ExtCuts == {NoCut, [kind |-> "resplost", t |-> 70], [kind |-> "reqlost", t |-> 64], [kind |-> "err255", t |-> 66]}
+ExtCuts == {NoCut, [kind |-> "resplost", t |-> 70], [kind |-> "reqlost", t |-> 64], [kind |-> "err255", t |-> 66], StoreFail(70)}
 NextExt ==
     /\ steps < MaxSteps
-    /\ \/ \E c \in {NoCut, [kind |-> "resplost", t |-> 12]} : DI(c)
+    /\ \/ \E c \in {NoCut, [kind |-> "resplost", t |-> 12], StoreFail(12)} : DI(c)
        \/ \E k \in 0..1 : Handover(k)
        \/ \E r \in BOOLEAN, c \in ExtCuts, u \in BOOLEAN : TO2(r, c, u)
        \/ Resell \/ Persist \/ ResellBad \/ Restore \/ ResellMissing \/ Register \/ Expire \/ Locate
